@@ -11,6 +11,8 @@ Bounded-exhaustive product (engine E1) over the real ``passlib.totp.TOTP``:
 * part ``sweep``: every counter 0..4095 (thorough 0..65535) x algs x digits; the run *asserts* (harness
   error otherwise) that every dynamic-truncation offset 0..15, a leading-zero token and a 31-bit value
   >= 10^9 occurred for every (alg, digits) in that sweep.
+* part ``objects``: every ordered pair and triple of 8 object configurations (2 keys x 3 algorithms, + other digits /
+  period on the first key) alive in one process: each generates the RFC value of its own key and settings.
 * part ``tz``: the generate product again under five PROCESS time zones (TZ + tzset): naive date-times are UTC by
   documentation, aware ones carry their own zone, numbers have none.
 * part ``history``: one live object x every history (depth <= 3, thorough 4) of generate() calls and key
@@ -257,7 +259,31 @@ def eval_history(case):
     return out
 
 
-EVALS = {"generate": eval_generate, "keytext": eval_keytext, "render": eval_render, "history": eval_history}
+def eval_objects(case):
+    """several TOTP objects alive in one process (same key under different algorithms / digit counts / periods,
+    different keys under the same algorithm), used in the given order: every object generates the RFC value for
+    ITS key and ITS settings, whatever other objects did before"""
+    keys = case["keys"]
+    out = []
+    try:
+        objs = []
+        for ki, alg, digits, period in case["configs"]:
+            objs.append((base_cls()(keys[ki], format="raw", alg=alg, digits=digits, period=period), keys[ki], alg, digits, period))
+        for rnd, t in enumerate((59, 1111111109)):
+            for i, (o, key, alg, digits, period) in enumerate(objs):
+                tok = o.generate(t)
+                want = R.hotp(key, R.time_counter(t, period), digits, alg)
+                if tok.token != want:
+                    out.append((f"C13|objects|token_depends_on_other_objects:alg={alg}",
+                                f"objects {case['configs']} used in this order: object {i} (key {key.hex()}, {alg}, {digits} digits, period {period}) "
+                                f"generate({t}) = {tok.token!r}, RFC value {want!r}"))
+                    return out
+    except Exception as e:  # noqa: BLE001
+        out.append((f"C13|objects|raises:{type(e).__name__}", f"objects {case['configs']} raised {e!r}"))
+    return out
+
+
+EVALS = {"generate": eval_generate, "keytext": eval_keytext, "render": eval_render, "history": eval_history, "objects": eval_objects}
 
 
 def replay(case):
@@ -374,6 +400,20 @@ def work(task):
             if c == 4095:
                 acc.sample({"kind": "generate", "key": key, "alg": alg, "digits": digits, "period": period, "t": c * period, "form": "int"})
         acc.count("sweep_counters", task["hi"] - task["lo"])
+    elif part == "objects":
+        import itertools
+
+        keys = [make_key(seed, 20), make_key(seed + 1, 20)]
+        cfgs = [(ki, alg, d, p) for ki in (0, 1) for alg in ALGS for d, p in ((6, 30),)] + [(0, "sha1", 8, 30), (0, "sha1", 6, 60)]
+        for n in (2, 3) if task["depth"] >= 3 else (2,):
+            for combo in itertools.permutations(cfgs, n):
+                case = {"kind": "objects", "keys": keys, "configs": [list(c) for c in combo]}
+                acc.ev()
+                acc.cls("objects", "/".join(f"{k}{a}{d}{p}" for k, a, d, p in combo))
+                found = eval_objects(case)
+                for k, desc in found:
+                    acc.violation(k, desc, case)
+                acc.outcome("violation" if found else "ok:objects")
     elif part == "tz":
         alg = task["alg"]
         key = make_key(seed, 20)
@@ -471,6 +511,7 @@ def run(ctx):
                                   "lo": lo, "hi": lo + 4096, "seed": seed})
     for n in keylens:
         tasks.append({"part": "keytext", "keylen": n, "seed": seed})
+    tasks.append({"part": "objects", "depth": 3, "seed": seed})
     for alg in ALGS:
         tasks.append({"part": "tz", "alg": alg, "seed": seed})
     for alg in ALGS:
